@@ -92,7 +92,7 @@ def run(ctx):
 def real_constraints(ctx, I):
     """the real constraint classes as root constraint of a real Banana"""
     from foolscap.constraint import IConstraint, ByteStringConstraint, IntegerConstraint, NumberConstraint
-    from foolscap.schema import ListOf, TupleOf, DictOf, SetOf, UnicodeConstraint, BooleanConstraint
+    from foolscap.schema import ListOf, TupleOf, DictOf, SetOf, UnicodeConstraint, BooleanConstraint, ChoiceOf
     from foolscap import banana
     r = ctx.rng
 
@@ -100,7 +100,13 @@ def real_constraints(ctx, I):
         k = r.choice([0, 1, 5, 40, 300])
         return r.choice([("bytes", ByteStringConstraint(maxLength=k), k), ("int", IntegerConstraint(maxBytes=max(4, k)), max(4, k)),
                          ("int32", IntegerConstraint(maxBytes=-1), 0), ("number", NumberConstraint(maxBytes=max(4, k)), max(4, k)),
-                         ("unicode", UnicodeConstraint(maxLength=k), 6 * k), ("bool", BooleanConstraint(), 0)])
+                         ("unicode", UnicodeConstraint(maxLength=k), 6 * k), ("bool", BooleanConstraint(), 0),
+                         # alternatives: the bound is the largest any alternative admits; an OPEN that one alternative admits
+                         # (None, bool, unicode) must not switch the others' limits off
+                         ("choice-bytes-none", ChoiceOf(ByteStringConstraint(maxLength=k), None), k),
+                         ("choice-bytes-bool", ChoiceOf(ByteStringConstraint(maxLength=k), bool), k),
+                         ("choice-unicode-int", ChoiceOf(UnicodeConstraint(maxLength=k), int), max(6 * k, 1024)),
+                         ("choice-int-none", ChoiceOf(IntegerConstraint(maxBytes=max(4, k)), None), max(4, k))])
 
     def tree(d):
         """-> (description, constraint, bound on accepted body sizes, path to the first leaf as a list of opentypes)"""
@@ -135,13 +141,22 @@ def real_constraints(ctx, I):
         prefix = b""
         for depth, ot in enumerate(path):
             prefix += tok(OPEN, depth) + S(ot)
+        injected_open = False
         leafkind = (name.split("(")[-1].split(",")[0].rstrip(")") if path else name) or "none"
         if "maxLength=0" in name or "maxKeys=0" in name or name.endswith("TupleOf()") or "TupleOf()" in name:
             leafkind = "none"
         if leafkind == "unicode" and r.random() < 0.7:
             prefix += tok(OPEN, len(path)) + S(b"unicode")
+        elif r.random() < 0.35:
+            # an OPEN of some type at the leaf position: whether the schema admits it or not, what is announced INSIDE it is still
+            # bounded by the schema (an inadmissible OPEN is discarded as a whole)
+            prefix += tok(OPEN, len(path)) + S(r.choice([b"unicode", b"none", b"boolean", b"decimal", b"list", b"tuple", b"dict", b"set",
+                                                           b"immutable-set", b"copyable", b"reference"]))
+            injected_open = True
         ty = r.choice([STRING, LONGINT, LONGNEG])
         size = r.choice([B + 1, B + 2, max(B, idxmax) + 1, 10 ** 6, 10 ** 7, 2 ** 448 - 1])
+        if injected_open:
+            size = max(size, 2000)        # beyond every index-token limit too
         sent = min(size, r.choice([200000, 30000, 5000]))
         step = r.choice([4096, 1000, 10000])
         hw = 0
@@ -170,6 +185,8 @@ def real_constraints(ctx, I):
                      replay=dict(constraint=name, ty=ty, size=size, sent=sent, step=step, highwater=hw, bound=bound))
     ctx.sample(dict(kind="real-constraint", constraint=name, token=hex(ty), announced=size, highwater=hw, bound=bound))
     full_containers(ctx, I)
+    member_counts(ctx, I)
+    choice_open_sweep(ctx, I)
     pb_index_tokens(ctx)
     if ctx.build_ok or ctx.coq_build(["lib/OpenerProofs.vo"])[0]:
         opener_correspondence(ctx)
@@ -257,6 +274,91 @@ def full_containers(ctx, I):
                     ctx.fail("oracle/full-container-buffers-extra-item", "%s already held all the items it admits (%d sent), yet %d bytes of one more "
                              "item (a %s token announcing %d bytes, acceptable to the item constraint alone) were buffered instead of being refused "
                              "at the header" % (name, k, hw, hex(ty), size), replay=dict(constraint=name, kind=kind, k=k, ty=ty, size=size, step=step, highwater=hw))
+
+
+def choice_open_sweep(ctx, I):
+    """ChoiceOf slots: an OPEN of EVERY opentype at the slot (bare and as a list item), followed by a sized token announcing far more
+    than any alternative admits: whichever alternative the OPEN selects -- or none -- the body must not be buffered"""
+    from foolscap.constraint import IConstraint, ByteStringConstraint, IntegerConstraint
+    from foolscap.schema import ListOf, DictOf, UnicodeConstraint, ChoiceOf
+    opentypes = [b"unicode", b"none", b"boolean", b"decimal", b"list", b"tuple", b"dict", b"set", b"immutable-set", b"copyable", b"reference"]
+    slots = [("ChoiceOf(bytes<=10, None)", lambda: ChoiceOf(ByteStringConstraint(maxLength=10), None), 10),
+             ("ChoiceOf(bytes<=10, bool)", lambda: ChoiceOf(ByteStringConstraint(maxLength=10), bool), 10),
+             ("ChoiceOf(unicode<=5, int)", lambda: ChoiceOf(UnicodeConstraint(maxLength=5), int), 1024),
+             ("ChoiceOf(int, None)", lambda: ChoiceOf(IntegerConstraint(maxBytes=8), None), 8),
+             ("ChoiceOf(ChoiceOf(bytes<=10, None), bool)", lambda: ChoiceOf(ChoiceOf(ByteStringConstraint(maxLength=10), None), bool), 10)]
+    for sname, mk, B in slots:
+        for where in ("bare", "list-item", "dict-value"):
+            for ot in opentypes:
+                for ty in (STRING, LONGINT):
+                    c = mk() if where == "bare" else ListOf(mk(), maxLength=3) if where == "list-item" else DictOf(ByteStringConstraint(5), mk(), maxKeys=2)
+                    p = I.RealBanana()
+                    p.receiveStack[-1].constraint = IConstraint(c)
+                    pre = b"" if where == "bare" else tok(OPEN, 0) + S(b"list") if where == "list-item" else tok(OPEN, 0) + S(b"dict") + S(b"k")
+                    hw, esc = 0, None
+                    try:
+                        p.dataReceived(pre + tok(OPEN, 1) + S(ot))
+                        p.dataReceived(tok(ty, 2 ** 60))
+                        for i in range(12):
+                            if p.connectionAbandoned:
+                                break
+                            p.dataReceived(b"z" * 1000)
+                            hw = max(hw, len(p.buffer))
+                    except Exception as e:
+                        esc = "%s: %s" % (type(e).__name__, e)
+                    ctx.case(["choice-open", sname, where, ot.decode(), ty], nontrivial=True)
+                    ctx.hist("choice_open", where)
+                    bound = 65 + max(B, 1000)
+                    if esc:
+                        ctx.fail("oracle/exception-escaped", "exception escaped dataReceived under %s (%s, OPEN %s): %s" % (sname, where, ot.decode(), esc),
+                                 replay=dict(slot=sname, where=where, opentype=ot.decode()))
+                    elif hw >= bound:
+                        ctx.fail("oracle/unbounded-buffering/choice-slot", "under %s (%s) the receiver held %d bytes of a %s token announcing 2**60 bytes "
+                                 "inside OPEN %s (no alternative admits more than %d bytes)" % (sname, where, hw, hex(ty), ot.decode(), B),
+                                 replay=dict(slot=sname, where=where, opentype=ot.decode(), ty=ty, highwater=hw, bound=bound))
+
+
+def member_counts(ctx, I):
+    """what is HELD for a partly received container is bounded by the schema too: a container with maxLength / maxKeys k never holds
+    more than k members while it is being received, however many the peer sends and whether or not they repeat"""
+    from foolscap.constraint import IConstraint, ByteStringConstraint
+    from foolscap.schema import ListOf, TupleOf, DictOf, SetOf
+    leaf = lambda: ByteStringConstraint(maxLength=10)
+    for kind, ot in (("list", b"list"), ("set", b"set"), ("frozenset", b"immutable-set"), ("dict", b"dict"), ("tuple", b"tuple")):
+        for k in (1, 3):
+            for pattern in ("one-repeated", "two-alternating", "distinct"):
+                if kind in ("list", "tuple"):
+                    c = ListOf(leaf(), maxLength=k) if kind == "list" else TupleOf(*[leaf() for _ in range(k)])
+                elif kind in ("set", "frozenset"):
+                    c = SetOf(leaf(), maxLength=k)
+                else:
+                    c = DictOf(leaf(), leaf(), maxKeys=k)
+                p = I.RealBanana()
+                p.receiveStack[-1].constraint = IConstraint(c)
+                worst, esc, held_bytes = 0, None, 0
+                try:
+                    p.dataReceived(tok(OPEN, 0) + S(ot))
+                    for i in range(k + 60):
+                        item = b"same" if pattern == "one-repeated" else (b"a" if i % 2 else b"b") if pattern == "two-alternating" else b"m%d" % i
+                        p.dataReceived(S(item) + (S(b"v") if kind == "dict" else b""))
+                        if p.connectionAbandoned or p.discardCount or len(p.receiveStack) < 2:
+                            break
+                        top = p.receiveStack[-1]
+                        coll = None
+                        for attr in ("list", "set", "d"):
+                            if isinstance(getattr(top, attr, None), (list, set, dict)):
+                                coll = getattr(top, attr)
+                        if coll is not None:
+                            worst = max(worst, len(coll))
+                except Exception as e:
+                    esc = "%s: %s" % (type(e).__name__, e)
+                ctx.case(["member-count", kind, k, pattern], nontrivial=True)
+                ctx.hist("member_count", kind)
+                if esc:
+                    ctx.fail("oracle/exception-escaped", "exception escaped dataReceived (%s, maxLength %d): %s" % (kind, k, esc), replay=dict(kind=kind, k=k))
+                elif worst > k:
+                    ctx.fail("oracle/partly-received-container-over-limit", "a %s limited to %d member(s) held %d members while it was being received "
+                             "(items sent: %s)" % (kind, k, worst, pattern), replay=dict(kind=kind, k=k, pattern=pattern, held=worst))
 
 
 def pb_index_tokens(ctx):
